@@ -18,26 +18,27 @@ def VarRanked (sys : Sys P) (rk : Nat → Nat) : Prop :=
 /-- every frame on the stack has a rank above `v` -/
 def Above (rk : Nat → Nat) (stack : List (Node P)) (v : Nat) : Prop := ∀ j ∈ stack, rk v < rk j.1
 
-/-- every cached value is an untainted, successful meaning -/
+/-- every cached value is an untainted, successful meaning of every node stored under its slot -/
 def Cons (sys : Sys P) (c : Cache P) : Prop :=
-  ∀ k x g, lookup c k = some (x, g) → g = false ∧ ∃ n, den sys n k.1 k.2 = some (.ok x)
+  ∀ v p x g, lookup c (sys.slot (v, p)) = some (x, g) → g = false ∧ ∃ n, den sys n v p = some (.ok x)
 
-theorem cons_insert (sys : Sys P) {c : Cache P} {v p x n} (hc : Cons sys c)
-    (h : den sys n v p = some (.ok x)) : Cons sys (((v, p), (x, false)) :: c) := by
-  intro k y g hk
-  simp only [lookup] at hk
-  split at hk
-  · rename_i heq; cases heq
-    simp only [Option.some.injEq, Prod.mk.injEq] at hk
-    obtain ⟨rfl, rfl⟩ := hk
-    exact ⟨rfl, n, h⟩
-  · exact hc k y g hk
+theorem cons_insert (sys : Sys P) (hk : SlotCoherent sys) {c : Cache P} {v p x n} (hc : Cons sys c)
+    (h : den sys n v p = some (.ok x)) : Cons sys ((sys.slot (v, p), (x, false)) :: c) := by
+  intro v' p' y g hk'
+  simp only [lookup] at hk'
+  split at hk'
+  · rename_i heq
+    simp only [Option.some.injEq, Prod.mk.injEq] at hk'
+    obtain ⟨rfl, rfl⟩ := hk'
+    obtain ⟨rfl, hck⟩ := (slot_eq_iff sys v' v p' p).1 heq
+    exact ⟨rfl, n, by rw [← hk v p p' hck n]; exact h⟩
+  · exact hc v' p' y g hk'
 
-theorem cons_store (sys : Sys P) {c : Cache P} {v p x n} (hc : Cons sys c)
-    (h : den sys n v p = some (.ok x)) : Cons sys (store sys c (v, p) x false) := by
+theorem cons_store (sys : Sys P) (hk : SlotCoherent sys) {c : Cache P} {v p x n} (hc : Cons sys c)
+    (h : den sys n v p = some (.ok x)) : Cons sys (store sys c (sys.slot (v, p)) x false) := by
   unfold store; split
   · exact hc
-  · exact cons_insert sys hc h
+  · exact cons_insert sys hk hc h
 
 theorem above_not_mem {rk : Nat → Nat} {stack : List (Node P)} {v : Nat} (ha : Above rk stack v) (p : P) :
     (v, p) ∉ stack := fun hm => Nat.lt_irrefl _ (ha _ hm)
@@ -51,7 +52,7 @@ theorem above_filter_nil {rk : Nat → Nat} {stack : List (Node P)} {v : Nat} (h
   rw [hkv] at this; exact Nat.lt_irrefl _ this
 
 mutual
-theorem run_eq_den (sys : Sys P) (rk : Nat → Nat) (hr : VarRanked sys rk) (hmsl : 1 ≤ sys.msl) :
+theorem run_eq_den (sys : Sys P) (hk : SlotCoherent sys) (rk : Nat → Nat) (hr : VarRanked sys rk) (hmsl : 1 ≤ sys.msl) :
     ∀ n s v p r, Cons sys s.cache → Above rk s.stack v → s.inval = [] → den sys n v p = some r →
       ∃ s', run sys n s v p = some (r, false, s') ∧ Cons sys s'.cache ∧ s'.stack = s.stack ∧ s'.inval = []
   | 0, _, _, _, _, _, _, _, h => by simp [den] at h
@@ -62,7 +63,7 @@ theorem run_eq_den (sys : Sys P) (rk : Nat → Nat) (hr : VarRanked sys rk) (hms
     split
     · -- cache hit
       rename_i y gy hy
-      obtain ⟨hg, m, hm⟩ := hc (v, p) y gy hy
+      obtain ⟨hg, m, hm⟩ := hc v p y gy hy
       have := den_det sys hm h
       subst this; subst hg
       refine ⟨s, ?_, hc, rfl, hi⟩
@@ -77,7 +78,7 @@ theorem run_eq_den (sys : Sys P) (rk : Nat → Nat) (hr : VarRanked sys rk) (hms
         split at h
         · rename_i hf
           cases h
-          refine ⟨_, rfl, cons_store sys hc (n := 1) ?_, rfl, hi⟩
+          refine ⟨_, rfl, cons_store sys hk hc (n := 1) ?_, rfl, hi⟩
           simp [den, hin, hf]
         · rename_i e hf
           have hab : ∀ k ∈ refs e, Above rk ((v, p) :: s.stack) k.1 := fun k hk j hj => by
@@ -88,18 +89,18 @@ theorem run_eq_den (sys : Sys P) (rk : Nat → Nat) (hr : VarRanked sys rk) (hms
           · cases h
           · rename_i er hde
             obtain ⟨s1, hr1, hc1, hs1, hi1⟩ :=
-              runE_eq_den sys rk hr hmsl n { s with stack := (v, p) :: s.stack } e _ hc hab hi hde
+              runE_eq_den sys hk rk hr hmsl n { s with stack := (v, p) :: s.stack } e _ hc hab hi hde
             cases h
             simp only [hr1]
             exact ⟨_, rfl, hc1, by simp [hs1], hi1⟩
           · rename_i x hde
             obtain ⟨s1, hr1, hc1, hs1, hi1⟩ :=
-              runE_eq_den sys rk hr hmsl n { s with stack := (v, p) :: s.stack } e _ hc hab hi hde
+              runE_eq_den sys hk rk hr hmsl n { s with stack := (v, p) :: s.stack } e _ hc hab hi hde
             cases h
             simp only [hr1]
-            refine ⟨_, rfl, cons_store sys hc1 (n := n+1) ?_, by simp [hs1], hi1⟩
+            refine ⟨_, rfl, cons_store sys hk hc1 (n := n+1) ?_, by simp [hs1], hi1⟩
             simp only [den, hin, hf, hde]
-theorem runE_eq_den (sys : Sys P) (rk : Nat → Nat) (hr : VarRanked sys rk) (hmsl : 1 ≤ sys.msl) :
+theorem runE_eq_den (sys : Sys P) (hk : SlotCoherent sys) (rk : Nat → Nat) (hr : VarRanked sys rk) (hmsl : 1 ≤ sys.msl) :
     ∀ n s e r, Cons sys s.cache → (∀ k ∈ refs e, Above rk s.stack k.1) → s.inval = [] →
       denE sys n e = some r →
       ∃ s', runE sys n s e = some (r, false, s') ∧ Cons sys s'.cache ∧ s'.stack = s.stack ∧ s'.inval = []
@@ -109,13 +110,13 @@ theorem runE_eq_den (sys : Sys P) (rk : Nat → Nat) (hr : VarRanked sys rk) (hm
     simp only [denE] at h; cases h; exact ⟨s, by simp [runE], hc, rfl, hi⟩
   | n, s, .ref v p, r, hc, ha, hi, h => by
     simp only [denE] at h
-    simpa [runE] using run_eq_den sys rk hr hmsl n s v p r hc (ha (v, p) (by simp [refs])) hi h
+    simpa [runE] using run_eq_den sys hk rk hr hmsl n s v p r hc (ha (v, p) (by simp [refs])) hi h
   | n, s, .fail id a, r, hc, ha, hi, h => by
     simp only [denE] at h
     split at h
     · rename_i harm; cases h; exact ⟨s, by simp [runE, harm], hc, rfl, hi⟩
     · rename_i harm
-      obtain ⟨s1, h1, hc1, hs1, hi1⟩ := runE_eq_den sys rk hr hmsl n s a r hc (fun k hk => ha k (by simpa [refs] using hk)) hi h
+      obtain ⟨s1, h1, hc1, hs1, hi1⟩ := runE_eq_den sys hk rk hr hmsl n s a r hc (fun k hk => ha k (by simpa [refs] using hk)) hi h
       exact ⟨s1, by simp [runE, harm, h1], hc1, hs1, hi1⟩
   | n, s, .op1 o a, r, hc, ha, hi, h => by
     simp only [denE] at h
@@ -123,11 +124,11 @@ theorem runE_eq_den (sys : Sys P) (rk : Nat → Nat) (hr : VarRanked sys rk) (hm
     split at h
     · cases h
     · rename_i er hda
-      obtain ⟨s1, h1, hc1, hs1, hi1⟩ := runE_eq_den sys rk hr hmsl n s a _ hc haa hi hda
+      obtain ⟨s1, h1, hc1, hs1, hi1⟩ := runE_eq_den sys hk rk hr hmsl n s a _ hc haa hi hda
       cases h
       exact ⟨s1, by simp [runE, h1], hc1, hs1, hi1⟩
     · rename_i x hda
-      obtain ⟨s1, h1, hc1, hs1, hi1⟩ := runE_eq_den sys rk hr hmsl n s a _ hc haa hi hda
+      obtain ⟨s1, h1, hc1, hs1, hi1⟩ := runE_eq_den sys hk rk hr hmsl n s a _ hc haa hi hda
       cases h
       exact ⟨s1, by simp [runE, h1], hc1, hs1, hi1⟩
   | n, s, .op2 o a b, r, hc, ha, hi, h => by
@@ -137,19 +138,19 @@ theorem runE_eq_den (sys : Sys P) (rk : Nat → Nat) (hr : VarRanked sys rk) (hm
     split at h
     · cases h
     · rename_i er hda
-      obtain ⟨s1, h1, hc1, hs1, hi1⟩ := runE_eq_den sys rk hr hmsl n s a _ hc haa hi hda
+      obtain ⟨s1, h1, hc1, hs1, hi1⟩ := runE_eq_den sys hk rk hr hmsl n s a _ hc haa hi hda
       cases h
       exact ⟨s1, by simp [runE, h1], hc1, hs1, hi1⟩
     · rename_i x hda
-      obtain ⟨s1, h1, hc1, hs1, hi1⟩ := runE_eq_den sys rk hr hmsl n s a _ hc haa hi hda
+      obtain ⟨s1, h1, hc1, hs1, hi1⟩ := runE_eq_den sys hk rk hr hmsl n s a _ hc haa hi hda
       split at h
       · cases h
       · rename_i er hdb
-        obtain ⟨s2, h2, hc2, hs2, hi2⟩ := runE_eq_den sys rk hr hmsl n s1 b _ hc1 (by rw [hs1]; exact hab) hi1 hdb
+        obtain ⟨s2, h2, hc2, hs2, hi2⟩ := runE_eq_den sys hk rk hr hmsl n s1 b _ hc1 (by rw [hs1]; exact hab) hi1 hdb
         cases h
         exact ⟨s2, by simp [runE, h1, h2], hc2, by rw [hs2, hs1], hi2⟩
       · rename_i y hdb
-        obtain ⟨s2, h2, hc2, hs2, hi2⟩ := runE_eq_den sys rk hr hmsl n s1 b _ hc1 (by rw [hs1]; exact hab) hi1 hdb
+        obtain ⟨s2, h2, hc2, hs2, hi2⟩ := runE_eq_den sys hk rk hr hmsl n s1 b _ hc1 (by rw [hs1]; exact hab) hi1 hdb
         cases h
         exact ⟨s2, by simp [runE, h1, h2], hc2, by rw [hs2, hs1], hi2⟩
 end
